@@ -28,7 +28,7 @@ From ApiFu Require Import Cplx.Tables Cplx.ParserDepthModel Cplx.MergeCountModel
      Cplx.ComplexityDecode Cplx.ComplexitySpec Cplx.ParserDepthProofs Cplx.CostWalkProofs Cplx.MergeFamily
      Cplx.MergeCountProofs Cplx.FragmentWalkCount Cplx.SpreadLists Cplx.FragmentWalkProofs
      Cplx.MergeLowerBound Cplx.CostWalkPaths.
-From ApiFu Require Base.Sexp Lex.LexModel Cplx.TokenClass Cplx.ParseFromBytes.
+From ApiFu Require Base.Sexp Lex.LexModel Lex.LexProgress Cplx.TokenClass Cplx.ParseFromBytes Cplx.ScanSteps.
 Import ListNotations.
 Open Scope Z_scope.
 
@@ -132,6 +132,18 @@ Theorem C12_parse_from_bytes_linear : forall bs : Base.Sexp.bytes,
                    1000 < 6 + 4 * maxnest (map TokenClass.tok_class ts)).
 Proof. exact ParseFromBytes.parse_from_bytes_linear. Qed.
 
+(** The scanner goes through the input once: for every byte string (valid UTF-8 or not, with or
+    without lexical errors, both modes) the state after the last Scan() is reached from the initial
+    state by exactly [runes bs] consumeRune transitions (C07's trace relation [nsteps]) - at least one
+    per token, at most one per byte; each transition decodes one rune (one DecodeRune). *)
+Theorem C12_scan_steps_linear : forall (m : bool) (bs : Base.Sexp.bytes),
+  exists ts es st' k,
+    Lex.LexModel.lex m bs = Lex.LexModel.Done ts es
+    /\ Lex.LexProgress.nsteps false k (Lex.LexModel.init bs) st' /\ Lex.LexModel.is_done st' = true
+    /\ k = TokenClass.runes bs
+    /\ (length ts <= k <= length bs)%nat.
+Proof. exact ScanSteps.scan_steps_linear. Qed.
+
 (** Defect 15 for every n >= 1: on  {...F0} fragment Fi on T{a{...F(i+1)} a{...F(i+1)}} (i < n)
     fragment Fn on T{i}  ([mfam n], size 13 n + 11) the pass of the pinned tree (nothing remembered)
     never runs out of fuel and calls validateSameResponseShape at least 2^n and at least 6^(n-1)/3
@@ -212,6 +224,7 @@ Print Assumptions C12_merge_steps_bound_poly.
 Print Assumptions C12_cycle_steps_le_bound.
 Print Assumptions C12_var_steps_le_bound.
 Print Assumptions C12_parse_from_bytes_linear.
+Print Assumptions C12_scan_steps_linear.
 Print Assumptions C12_merge_family_exponential_before_fix.
 Print Assumptions C12_cost_run_expansions.
 Print Assumptions C12_cost_run_linear_when_bodies_flat.
